@@ -96,7 +96,7 @@ def build_jobs(t, sd):
         for v in range(2, 11):
             for name, rec in probes:
                 add(name, rec, v, mode)
-            for name, rec, _ in gen_fields.field_probes(mode, v, all_versions=True):
+            for name, rec, _ in gen_fields.field_probes(mode, v, all_versions=True) + gen_fields.maybe_probes(mode, v, all_versions=True):
                 add(name.replace("field:", "legal:field:"), rec, v, mode)
     # every other family
     versions = list(range(2, 11)) if thorough else [2, 3, 4, 6, 8, 10]
